@@ -162,4 +162,4 @@ def shard_random(ctx, shard, nshards, n):
 
 def run(ctx):
     ctx.run_cases('doc', FIXED)
-    ctx.run_parallel('shard_random', extra=(ctx.pick(12, 600),))
+    ctx.run_parallel('shard_random', extra=(ctx.pick(12, 300),))
